@@ -11,6 +11,7 @@ import (
 	"path/filepath"
 	"strings"
 
+	simwire "perun.network/go-perun/backend/sim/wire"
 	"perun.network/go-perun/channel"
 	"perun.network/go-perun/wallet"
 	"perun.network/go-perun/wire"
@@ -222,6 +223,15 @@ func Encode(enc func(io.Writer) error) (bs []byte, ok bool, panicked bool) {
 	return buf.Bytes(), true, false
 }
 
+func kindByName(name string) *Kind {
+	for i := range Kinds {
+		if Kinds[i].Name == name {
+			return &Kinds[i]
+		}
+	}
+	panic(name)
+}
+
 func obsTerm(k *Kind, outcome, term string, rest int) string {
 	switch outcome {
 	case "ok":
@@ -320,6 +330,26 @@ func RunC14(seed int64, tier, out string) {
 				fail(k.Name+".Decode", class, "decode(encode v) differs from v", idx, map[string]string{"v": term, "decoded": t2})
 			case rest != len(extra):
 				fail(k.Name+".Decode", class, fmt.Sprintf("decoder consumed %d bytes of a %d byte encoding", len(bs)+len(extra)-rest, len(bs)), idx, term)
+			}
+		}
+		// wire address maps with several entries (a node with addresses on several backends): Go encodes
+		// them in map order, so only the DECODING of the bytes Go produced is compared with the model
+		// (which sorts by key), together with the round trip in Go
+		{
+			krm := kindByName("KRamap")
+			m := map[wallet.BackendID]wire.Address{}
+			for _, key := range [][]int{{0, 1}, {0, 2, 5}, {1, 7}, {3, 2, 1, 0}}[g.R.Intn(4)] {
+				m[wallet.BackendID(key)] = simwire.NewRandomAddress(g.R)
+			}
+			bs, ok, _ := Encode(encOf(wire.AddressDecMap(m)))
+			if ok {
+				o, t2, rest, _ := Decode(krm, bs)
+				idx := w.add(hx.App("CDec", krm.Name, hx.Hex(bs), obsTerm(krm, o, t2, rest)))
+				res.CaseIndex = append(res.CaseIndex, "dec/KRamap/multi")
+				res.Count("dec/KRamap/multi", o, fmt.Sprintf("dec/KRamap/multi/%d/%s", len(m), o), false)
+				if o != "ok" || t2 != cv.Ramap(m) || rest != 0 {
+					fail("wire.AddressDecMap.Decode", "multi-entry", "decode(encode m) differs from m for a wire address map with several entries", idx, map[string]string{"m": cv.Ramap(m), "decoded": t2})
+				}
 			}
 		}
 		// concatenated envelopes decode one after the other
